@@ -165,10 +165,12 @@ def run_case(case, ctx):
 NAMES = ["a.txt", "b.py", "src/main.c", "src/util.c", "src/sub/deep.c", "docs/index.md", "docs/img/logo.png", "data/x?y.dat", "st*r.txt",
          "README", "src/a b.c", "ab.txt", "a1.txt", "back\\slash.txt", "docs/q.md",
          # names that merely begin like a name some pattern spells out in full
-         "README.rst", "a.txt.orig", "src/main.c.bak", "b.pyc", "docs/index.md5"]
+         "README.rst", "a.txt.orig", "src/main.c.bak", "b.pyc", "docs/index.md5",
+         # one word typed with a combining accent, once with the precomposed letter: two different names
+         "docs/cafe\u0301.md", "docs/caf\u00e9s.md"]
 PATTERNS = ["*", "src/*", "*.txt", "docs/*.md", "src/sub/*", "a?.txt", "st\\*r.txt", "data/x\\?y.dat", "docs/img/*", "README", "src/*.c",
             "a.txt", "src/main.c", "b.py", "docs/index.md",
-            "*.c", "a*.txt", "back\\\\slash.txt", "d*", "*/q.md", "src/**", "**/*.md", "?.py", "docs/?.md", "src/mai?.c"]
+            "*.c", "a*.txt", "back\\\\slash.txt", "docs/caf\u00e9.md", "docs/cafe\u0301s.md", "docs/cafe\u0301.md", "d*", "*/q.md", "src/**", "**/*.md", "?.py", "docs/?.md", "src/mai?.c"]
 
 
 import re as _re0
@@ -216,7 +218,7 @@ def make_dep5(rng, clean=False):
     if rng.random() < 0.3:
         head += "Disclaimer: not part of Debian\n"
     if rng.random() < 0.3:
-        head += "Comment: header comment\n"
+        head += rng.choice(["Comment: header comment\n", "Comment: header comment\n continued on a second line\n .\n and a new paragraph with \"quotes\" and a back\\slash\n"])
     return head + "\n" + "\n\n".join(paras) + "\n"
 
 
